@@ -626,7 +626,8 @@ func ParentMain(id, tier string) int {
 	var violLines []string
 	var violSamples []any
 	nviol := 0
-	os.MkdirAll(filepath.Join(verif, "replays"), 0o755)
+	outDir := envOr("VERIF_OUT", verif) // evidence and replay files (runs against deliberately changed trees write elsewhere)
+	os.MkdirAll(filepath.Join(outDir, "replays"), 0o755)
 	for _, s := range sigs {
 		cl := total.Clusters[s]
 		if k := findings.match(id, cl); k != nil {
@@ -654,7 +655,7 @@ func ParentMain(id, tier string) int {
 		nviol++
 		h := fnv.New32a()
 		h.Write([]byte(cl.Sig))
-		path := filepath.Join(verif, "replays", fmt.Sprintf("%s-%08x.json", id, h.Sum32()))
+		path := filepath.Join(outDir, "replays", fmt.Sprintf("%s-%08x.json", id, h.Sum32()))
 		rb, _ := json.MarshalIndent(map[string]any{"property": id, "tier": tier, "sig": cl.Sig, "count": cl.Count, "desc": cl.Min.Desc,
 			"phase": cl.Min.Phase, "point": cl.Min.Point, "expected": cl.Min.Expected, "actual": cl.Min.Actual,
 			"go_test": goTest(id, cl.Min)}, "", " ")
@@ -684,7 +685,7 @@ func ParentMain(id, tier string) int {
 				n += cl.Count
 			}
 			sig := id + "/outcome-depends-on-process-history/" + w.Phase
-			path := filepath.Join(verif, "replays", fmt.Sprintf("%s-history-%s-%d.json", id, w.Phase, w.Shard))
+			path := filepath.Join(outDir, "replays", fmt.Sprintf("%s-history-%s-%d.json", id, w.Phase, w.Shard))
 			desc := fmt.Sprintf("%d differences (%d kinds) were seen by worker %d/%d of phase %s and again when that worker was re-run (%d), but not one of them shows when its input is evaluated alone in a fresh process; first witness: %s",
 				n, len(unrepro), w.Shard, w.Of, w.Phase, confirmed, w.Desc)
 			rb, _ := json.MarshalIndent(map[string]any{"property": id, "tier": tier, "sig": sig, "count": n, "desc": desc, "kind": "shard",
@@ -762,8 +763,8 @@ func ParentMain(id, tier string) int {
 		"coverage": cov, "assumptions": c.Assumptions, "wall_s": wall, "violations": nviol,
 	}
 	eb, _ := json.MarshalIndent(ev, "", " ")
-	os.MkdirAll(filepath.Join(verif, "evidence"), 0o755)
-	if err := os.WriteFile(filepath.Join(verif, "evidence", id+".json"), eb, 0o644); err != nil {
+	os.MkdirAll(filepath.Join(outDir, "evidence"), 0o755)
+	if err := os.WriteFile(filepath.Join(outDir, "evidence", id+".json"), eb, 0o644); err != nil {
 		fmt.Fprintln(os.Stderr, "jmc: cannot write evidence:", err)
 		return 2
 	}
